@@ -7,6 +7,7 @@ import (
 	"os"
 	"path"
 	"runtime/debug"
+	"runtime/pprof"
 	"sort"
 	"strings"
 	"time"
@@ -70,6 +71,11 @@ func check(args []string) (code int) {
 		return 2
 	}
 	started := time.Now()
+	if pf := os.Getenv("VERIF_PROF"); pf != "" {
+		f, _ := os.Create(pf)
+		pprof.StartCPUProfile(f)
+		defer pprof.StopCPUProfile()
+	}
 	c := rules.NewCtx(p, *tier)
 	c.RepoDir = *repo
 	func() {
